@@ -71,8 +71,14 @@ var (
 // SetGate makes the next Lock whose caller's function name contains fn stop right after the acquisition - inside its
 // critical section - until release is called; parked is closed when a caller has stopped there.  One caller is held,
 // later ones pass.  For directed trials that need "X holds this lock now" as a fact rather than as a timing guess.
-func SetGate(fn string) (parked <-chan struct{}, release func()) {
-	g := &gate{fn: fn, parked: make(chan struct{}), open: make(chan struct{})}
+func SetGate(fn string) (parked <-chan struct{}, release func()) { return setGate(fn, false) }
+
+// SetGateBefore is SetGate with the stop placed before the acquisition: the caller has not got the lock yet (and keeps
+// whatever else it holds), everybody else can still take it.
+func SetGateBefore(fn string) (parked <-chan struct{}, release func()) { return setGate(fn, true) }
+
+func setGate(fn string, before bool) (parked <-chan struct{}, release func()) {
+	g := &gate{fn: fn, before: before, parked: make(chan struct{}), open: make(chan struct{})}
 	gateP.Store(g)
 	var once sync.Once
 	return g.parked, func() { once.Do(func() { gateP.CompareAndSwap(g, nil); close(g.open) }) }
@@ -80,6 +86,7 @@ func SetGate(fn string) (parked <-chan struct{}, release func()) {
 
 type gate struct {
 	fn     string
+	before bool
 	taken  atomic.Bool
 	parked chan struct{}
 	open   chan struct{}
@@ -87,8 +94,20 @@ type gate struct {
 
 var gateP atomic.Pointer[gate]
 
+// holdBefore is called first thing in Lock.
+func holdBefore() {
+	if g := gateP.Load(); g != nil && g.before {
+		if pc, _, _, ok := runtime.Caller(2); ok {
+			if f := runtime.FuncForPC(pc); f != nil && strings.Contains(f.Name(), g.fn) && g.taken.CompareAndSwap(false, true) {
+				close(g.parked)
+				<-g.open
+			}
+		}
+	}
+}
+
 func hold() {
-	if g := gateP.Load(); g != nil {
+	if g := gateP.Load(); g != nil && !g.before {
 		if pc, _, _, ok := runtime.Caller(2); ok {
 			if f := runtime.FuncForPC(pc); f != nil && strings.Contains(f.Name(), g.fn) && g.taken.CompareAndSwap(false, true) {
 				close(g.parked)
@@ -185,6 +204,7 @@ type Mutex struct {
 }
 
 func (m *Mutex) Lock() {
+	holdBefore()
 	jitter()
 	Acquisitions.Add(1)
 	if !trackOn.Load() {
